@@ -2,12 +2,17 @@ package util
 
 import (
 	"bytes"
+	"fmt"
 	"io/ioutil"
 	"os"
 	"path"
 	"path/filepath"
 	"strings"
+	"sync/atomic"
 )
+
+// tmpFileCount makes the names of temporary files unique within the process.
+var tmpFileCount uint64
 
 type fileStorage struct {
 	dirPath string
@@ -40,9 +45,12 @@ func NewFileStorage(dir string) (Storage, error) {
 // in between leaves either the previous or the new value behind.
 func (f *fileStorage) Set(key string, value []byte) error {
 	path := f.filePathToFile(key)
-	tmp := path + ".tmp"
 
-	file, err := os.OpenFile(tmp, os.O_WRONLY|os.O_CREATE|os.O_TRUNC, 0666)
+	// The name of the temporary file is unique and cannot be the file of another key:
+	// it is hidden, and its end never matches a key suffix like ".entity".
+	tmp := filepath.Join(f.dir(), fmt.Sprintf(".tmp-%s-%d-%d", filepath.Base(path), os.Getpid(), atomic.AddUint64(&tmpFileCount, 1)))
+
+	file, err := os.OpenFile(tmp, os.O_WRONLY|os.O_CREATE|os.O_EXCL|os.O_TRUNC, 0666)
 	if err != nil {
 		return err
 	}
